@@ -91,6 +91,14 @@ for cons in ['boundaryConditionsTerm1D/periodic/axis=x', 'boundaryConditionsTerm
              'boundaryConditionsTermPolar2D/periodic/axis=y', 'boundaryConditionsTermSpherical3D/periodic/axis=y', 'boundaryConditionsTermSpherical3D/periodic/axis=z']:
     known('C07', 'M3', 'boundary.' + cons + '[nonnegative-only-for-equal-end-cells]', PER7)
 
+SEAM = ("convectionUpwindTerm* and convectionTvdRHS* apply their boundary-face treatment (half weight on the ghost value, zero limited flux "
+        "on the first/last face) unconditionally, also when the axis is periodic: the rows of the first and last cell are then not the translates "
+        "of the interior row, so a cyclically shifted initial field does not give the shifted solution and the upwind flux through the seam is not "
+        "the donor-cell flux (mass drifts, C01). Not repaired: the builders do not receive the boundary conditions; making them periodic-aware "
+        "changes the public signature of 18 functions.")
+for cons in ['advection.convectionTvdRHS1D/seam=x[boundary-treatment-at-periodic-seam]', 'advection.convectionTvdRHS2D/seam=x[boundary-treatment-at-periodic-seam]', 'advection.convectionTvdRHS2D/seam=y[boundary-treatment-at-periodic-seam]', 'advection.convectionTvdRHS3D/seam=x[boundary-treatment-at-periodic-seam]', 'advection.convectionTvdRHS3D/seam=y[boundary-treatment-at-periodic-seam]', 'advection.convectionTvdRHS3D/seam=z[boundary-treatment-at-periodic-seam]', 'advection.convectionTvdRHSCylindrical3D/seam=y[boundary-treatment-at-periodic-seam]', 'advection.convectionTvdRHSCylindrical3D/seam=z[boundary-treatment-at-periodic-seam]', 'advection.convectionTvdRHSPolar2D/seam=y[boundary-treatment-at-periodic-seam]', 'advection.convectionUpwindTerm1D/seam=x[boundary-treatment-at-periodic-seam]', 'advection.convectionUpwindTerm2D/seam=x[boundary-treatment-at-periodic-seam]', 'advection.convectionUpwindTerm2D/seam=y[boundary-treatment-at-periodic-seam]', 'advection.convectionUpwindTerm3D/seam=x[boundary-treatment-at-periodic-seam]', 'advection.convectionUpwindTerm3D/seam=y[boundary-treatment-at-periodic-seam]', 'advection.convectionUpwindTerm3D/seam=z[boundary-treatment-at-periodic-seam]', 'advection.convectionUpwindTermCylindrical3D/seam=y[boundary-treatment-at-periodic-seam]', 'advection.convectionUpwindTermCylindrical3D/seam=z[boundary-treatment-at-periodic-seam]', 'advection.convectionUpwindTermPolar2D/seam=y[boundary-treatment-at-periodic-seam]']:
+    known('C08', 'A4', cons, SEAM)
+
 exec(open(os.path.join(os.path.dirname(__file__), 'known_more.py')).read()) if os.path.exists(os.path.join(os.path.dirname(__file__), 'known_more.py')) else None
 json.dump(dict(findings=f), open('/verif/known_findings.json', 'w'), indent=1)
 print(len(f), 'entries')
